@@ -640,10 +640,114 @@ def rule_p9(repo):
     need(n_edits, 'Com.get_lines: no later edit of a listed line found (the separator of a sequence)')
     return res
 
+class _Unreadable(Exception):
+    pass
+
+
+def _pure_value(funcnode, arg):
+    """value of a small pure function of one string for the argument `arg`, read off its syntax tree: assignments, for over a string /
+    range, if, return, integer arithmetic, comparisons, ord / len / int / range.  Raises _Unreadable for anything else and TypeError /
+    ValueError where Python would (ord of a longer string): the caller takes such a name as not admitted."""
+    import operator
+    env = {funcnode.args.args[0].arg: arg}
+    BIN = {ast.Add: operator.add, ast.Sub: operator.sub, ast.Mult: operator.mul, ast.FloorDiv: operator.floordiv, ast.Mod: operator.mod, ast.Pow: operator.pow}
+    CMP = {ast.Eq: operator.eq, ast.NotEq: operator.ne, ast.Lt: operator.lt, ast.LtE: operator.le, ast.Gt: operator.gt, ast.GtE: operator.ge}
+
+    class Ret(Exception):
+        def __init__(self, v):
+            self.v = v
+
+    def ev(e):
+        if isinstance(e, ast.Constant):
+            return e.value
+        if isinstance(e, ast.Name):
+            if e.id in env:
+                return env[e.id]
+            raise _Unreadable(e.id)
+        if isinstance(e, ast.BinOp) and type(e.op) in BIN:
+            return BIN[type(e.op)](ev(e.left), ev(e.right))
+        if isinstance(e, ast.UnaryOp) and isinstance(e.op, ast.USub):
+            return -ev(e.operand)
+        if isinstance(e, ast.Compare) and len(e.ops) == 1 and type(e.ops[0]) in CMP:
+            return CMP[type(e.ops[0])](ev(e.left), ev(e.comparators[0]))
+        if isinstance(e, ast.BoolOp):
+            vals = [ev(v) for v in e.values]
+            return all(vals) if isinstance(e.op, ast.And) else any(vals)
+        if isinstance(e, ast.Subscript):
+            return ev(e.value)[ev(e.slice)]
+        if isinstance(e, ast.Call) and isinstance(e.func, ast.Name) and e.func.id in ('ord', 'len', 'int', 'range', 'reversed', 'enumerate') and not e.keywords:
+            return {'ord': ord, 'len': len, 'int': int, 'range': range, 'reversed': lambda x: list(reversed(x)), 'enumerate': lambda x: list(enumerate(x))}[e.func.id](*[ev(a) for a in e.args])
+        raise _Unreadable(src(e, 40))
+
+    def run(stmts):
+        for st in stmts:
+            if isinstance(st, ast.Expr) and isinstance(st.value, ast.Constant):
+                continue
+            if isinstance(st, ast.Assign) and len(st.targets) == 1 and isinstance(st.targets[0], ast.Name):
+                env[st.targets[0].id] = ev(st.value)
+            elif isinstance(st, ast.AugAssign) and isinstance(st.target, ast.Name) and type(st.op) in BIN:
+                env[st.target.id] = BIN[type(st.op)](env[st.target.id], ev(st.value))
+            elif isinstance(st, ast.For) and not st.orelse:
+                for item in ev(st.iter):
+                    if isinstance(st.target, ast.Name):
+                        env[st.target.id] = item
+                    elif isinstance(st.target, ast.Tuple) and all(isinstance(x, ast.Name) for x in st.target.elts):
+                        for x, y in zip(st.target.elts, item):
+                            env[x.id] = y
+                    else:
+                        raise _Unreadable('loop target')
+                    run(st.body)
+            elif isinstance(st, ast.If):
+                run(st.body if ev(st.test) else st.orelse)
+            elif isinstance(st, ast.Return):
+                raise Ret(ev(st.value))
+            else:
+                raise _Unreadable(src(st, 40))
+    try:
+        run(funcnode.body)
+    except Ret as r:
+        return r.v
+    raise _Unreadable('no return')
+
+
+def rule_p10(repo):
+    """The HOL form of a program reads and writes the state through *locations*: `str_to_nat(name)` turns the name of a program variable
+    into the natural number its value is stored under.  Symbolic evaluation agrees with running the program only if two different
+    names never share a location.  The function is a few lines of integer arithmetic on the characters of the name; its value on every
+    name up to three letters over a sample of the alphabet is read off the syntax tree (a name on which Python would raise - `ord` of a
+    longer string - is not a name the parser admits), and the values have to be pairwise different.  Base 26 with a = 0 is not
+    injective (a leading a is a leading zero: ab and b both give 1), and `b := 1; ab := 2` then proves b = 2."""
+    res = RuleResult('C20.P10', 'different names of program variables are stored at different locations', floor=1)
+    f = repo.func('imperative/parser.py', 'str_to_nat')
+    import itertools
+    letters = 'abcyz'
+    names = [''.join(t) for k in (1, 2, 3) for t in itertools.product(letters, repeat=k)]
+    seen, clash, unreadable = {}, None, None
+    admitted = 0
+    for nm in names:
+        try:
+            v = _pure_value(f.node, nm)
+        except _Unreadable as e:
+            unreadable = str(e)
+            break
+        except (TypeError, ValueError, IndexError):
+            continue
+        admitted += 1
+        if v in seen and clash is None:
+            clash = (seen[v], nm, v)
+        seen.setdefault(v, nm)
+    need(unreadable is None, 'imperative/parser.py :: str_to_nat uses a construct the reader does not know: %s' % unreadable)
+    need(admitted >= len(letters), 'imperative/parser.py :: str_to_nat admits fewer names than the sample of one-letter names')
+    res.add('imperative/parser.py :: str_to_nat :: injective-on-sample', clash is None,
+            '%d sample names admitted, pairwise different locations' % admitted if clash is None else
+            'the names `%s` and `%s` are both stored at location %s: two program variables share one cell, and `%s := 1; %s := 2` is "proved" to leave %s = 2' % (
+                clash[0], clash[1], clash[2], clash[0], clash[1], clash[0]), f.loc)
+    return res
+
 
 def rules(repo):
     p1 = rule_p1(repo)
     if any(not i.ok for i in p1.instances):
         # with an ambiguous grammar there is no nesting for the printer's brackets to agree with
-        return [p1, rule_p3(repo), rule_p4(repo), rule_p5(repo), rule_p6(repo), rule_p7(repo), rule_p8(repo), rule_p9(repo)]
-    return [p1, rule_p2(repo), rule_p3(repo), rule_p4(repo), rule_p5(repo), rule_p6(repo), rule_p7(repo), rule_p8(repo), rule_p9(repo)]
+        return [p1, rule_p3(repo), rule_p4(repo), rule_p5(repo), rule_p6(repo), rule_p7(repo), rule_p8(repo), rule_p9(repo), rule_p10(repo)]
+    return [p1, rule_p2(repo), rule_p3(repo), rule_p4(repo), rule_p5(repo), rule_p6(repo), rule_p7(repo), rule_p8(repo), rule_p9(repo), rule_p10(repo)]
